@@ -12,7 +12,7 @@ RULE = ("quick: exhaustive over cycles of 1..3 elements x durations 1..3 x 3 col
 ANCHORS = ["TrafficLightCycle.get_state_at_time_step", "TrafficLight.get_state_at_time_step",
            "TrafficLightCycle.cycle_init_timesteps"]
 REQUIRED = ["single-element", "t<offset", "t-many-periods", "adjacent-same-colour", "light-agrees", "retimed.swap-durations", "retimed.shift-duration",
-            "retimed.reverse-in-place", "retimed.time_offset", "retimed.append", "light.lamps-RYG",
+            "retimed.reverse-in-place", "retimed.time_offset", "retimed.append", "retimed.replace-cycle-of-light", "light.lamps-RYG",
             "light.first-colour-only", "light.inactive-flag", "numpy-int-time.uint8", "numpy-int-time.uint64",
             "numpy-int-time.int8", "numpy-int-definition.unsigned", "numpy-int-definition.signed"]
 EXHAUSTIVE = {"quick": "cycles of 1..3 elements, durations 1..3, colours {RED,GREEN,YELLOW}, offsets 0..4, t in -10..40",
@@ -184,8 +184,10 @@ def run(ctx):
                                   {"history": hist, "cycle": [(c.name, d) for c, d in sd], "offset": off, "t": t})
                     break
             op = ["swap-durations", "shift-duration", "reverse-in-place", "setter-same-total", "change-one-duration",
-                  "time_offset", "append", "pop", "recolour"][(i + step * 4) % 9]
+                  "time_offset", "append", "pop", "recolour", "replace-cycle-of-light"][(i + step * 4) % 10]
             els = cyc.cycle_elements
+            if op in ("swap-durations", "shift-duration") and len(sd) < 2:
+                op = "append"
             if op == "swap-durations":
                 a, b = rng.sample(range(len(sd)), 2)
                 els[a].duration, els[b].duration = els[b].duration, els[a].duration
@@ -218,6 +220,12 @@ def run(ctx):
                 if len(sd) > 1:
                     els.pop()
                     sd.pop()
+            elif op == "replace-cycle-of-light":
+                # the light gets ANOTHER cycle object (public setter): from now on it follows that one
+                sd = [(rng.choice(list(S)), rng.randint(1, 9)) for _ in range(rng.randint(2, 4))]
+                off = rng.randint(0, 12)
+                cyc = TrafficLightCycle([TrafficLightCycleElement(c, d) for c, d in sd], time_offset=off)
+                light.traffic_light_cycle = cyc
             else:
                 a = rng.randrange(len(sd))
                 c = rng.choice(list(S))
